@@ -24,6 +24,7 @@ let parse_op op =
   | ["first"] -> Some AFirst
   | ["last"] -> Some ALast
   | ["len"] -> Some ALen
+  | ["ss"; n] -> Some (ASetSize (nat_of_int (int_of_string n)))
   | _ -> None
 
 (* returns (model tokens, spec tokens, class) *)
@@ -32,8 +33,9 @@ let run_arr ops =
   let mt = ref [] and st = ref [] in
   let ub = ref false and nontriv = ref 0 in
   let drained = ref false and grown = ref 0 and enomem = ref 0 in
+  let fin = List.mem "fin" ops in
   List.iter (fun op ->
-    if op <> "" then
+    if op <> "" && op <> "fin" then
     (* "!op": the allocator refuses during this call (container-level C14) *)
     let refuse = op.[0] = '!' in
     let op = if refuse then String.sub op 1 (String.length op - 1) else op in
@@ -57,6 +59,12 @@ let run_arr ops =
       mt := res_str r :: !mt; st := res_str r' :: !st) ops;
   let dump l = "dump=" ^ String.concat "," (List.map string_of_z l) in
   mt := dump (arr_abs !a) :: !mt; st := dump !spec :: !st;
+  (* "fin" anywhere in the case: the array ends with ares_array_finish instead of destroy *)
+  if fin then begin
+    let f l = "fin=" ^ String.concat "," (List.map string_of_z l) in
+    mt := (match arr_finish !a with Ok l -> f l | Err s -> "fin:" ^ string_of_z s | UB _ -> (ub := true; "fin:UB")) :: !mt;
+    st := f !spec :: !st
+  end;
   (String.concat " " (List.rev !mt), String.concat " " (List.rev !st),
    if !ub then "model-ub" else if !nontriv < 2 then "trivial"
    else "arr" ^ (if !drained then "-drained" else "") ^ (if !grown >= 3 then "-grow3" else "") ^ (if !enomem > 0 then "-enomem" else ""))
